@@ -5,14 +5,14 @@ THOROUGH_BUDGET_S = 600
 RULE = (
     "seeded put/get histories: (fil) prep_outfile at depth d in {1,2,4,8,16,32}, 1-6 cwrite chunks of whole samples whose "
     "in-memory dtype is drawn from {uint8,uint16,int64,float32,float64} independently of d, values from the representable "
-    "set of d (or deliberately not representable: only converted-or-refused is asserted), close or drop, reopen by path, "
+    "set of d, handed over as a flat array, a strided 1-D view, or the logical (nsamps, nchans) array in C or Fortran memory order (written in logical order or refused - never scrambled) (or deliberately not representable: only converted-or-refused is asserted), close or drop, reopen by path, "
     "read back whole / in sub-ranges / with read_plan; (block) FilterbankBlock.to_file; (tim/dat) TimeSeries.to_tim/to_dat -> "
     "from_tim/from_dat; (spec/fft) FourierSeries.to_spec/to_fft -> from_spec/from_fft, with generated tsamp/tstart/dm; fault "
     "runs add W3 (ENOSPC at byte j of write k). Non-trivial = a product was re-opened and compared; distinct = distinct "
     "event-log digests among those."
 )
 PROBES = ["dtype!=file-dtype", "chunks>1", "reopen-without-close", "unrepresentable-values", "refused", "converted",
-          "W3-raised", "sub-range-read-back", "read_plan-read-back", "earlier-product-at-other-depth", "big-chunks"] + [f"depth:{d}" for d in (1, 2, 4, 8, 16, 32)] + [
+          "W3-raised", "sub-range-read-back", "read_plan-read-back", "earlier-product-at-other-depth", "big-chunks", "layout:1d-strided", "layout:2d-C", "layout:2d-F"] + [f"depth:{d}" for d in (1, 2, 4, 8, 16, 32)] + [
     f"format:{k}" for k in ("fil", "block", "tim", "dat", "spec", "fft")]
 COMPONENTS = {
     "real": ["Header.prep_outfile / FileWriter.cwrite / bits.pack", "FilterbankBlock.to_file", "TimeSeries.to_tim/to_dat/from_tim/from_dat",
